@@ -371,4 +371,64 @@ theorem reverse_spec (s : St) (l : Hdr) (cs : List Cell) (r : Repr s.heap l cs) 
     · simp only []; rw [nxt_reverse]
     · simp only []; rw [lastOr_reverse]
 
+/-- every cursor the loop of `cc_list_reverse` dereferences is a live node -/
+theorem reverseLoopOk_spec : ∀ (k : Nat) (h : Heap) (A M B : List Cell),
+    Seg h none (A ++ M ++ B) none → (idsOf (A ++ M ++ B)).Nodup → (M.length = 2 * k ∨ M.length = 2 * k + 1) →
+    reverseLoopOk k h (nxt M none) (lastOr M none) = true
+  | 0, _, _, _, _, _, _, _ => rfl
+  | k + 1, h, A, M, B, hs, hn, hl => by
+    obtain ⟨lc, M', rc, e⟩ := ends_of_length M (by omega)
+    subst e
+    have hlen : M'.length = 2 * k ∨ M'.length = 2 * k + 1 := by
+      simp only [List.length_cons, List.length_append, List.length_nil] at hl; omega
+    have hs' : Seg h none (A ++ lc :: (M' ++ rc :: B)) none := by
+      have : A ++ lc :: (M' ++ [rc]) ++ B = A ++ lc :: (M' ++ rc :: B) := by simp
+      rw [this] at hs; exact hs
+    have hn' : (idsOf (A ++ lc :: (M' ++ rc :: B))).Nodup := by
+      have : A ++ lc :: (M' ++ [rc]) ++ B = A ++ lc :: (M' ++ rc :: B) := by simp
+      rw [this] at hn; exact hn
+    obtain ⟨sw, _⟩ := swap_ends hs' hn'
+    obtain ⟨_, hlc, sRest⟩ := Seg_split hs'
+    obtain ⟨_, hrc, _⟩ := Seg_split sRest
+    have hp : nxt (lc :: (M' ++ [rc])) none = some lc.1 := rfl
+    have hq : lastOr (lc :: (M' ++ [rc])) none = some rc.1 := by simp [lastOr_append]
+    have hcur : reverseLoopOk k (swap h lc.1 rc.1) (nxt (M' ++ rc :: B) none) (lastOr M' (some lc.1)) =
+        reverseLoopOk k (swap h lc.1 rc.1) (nxt M' none) (lastOr M' none) := by
+      cases k with
+      | zero => rfl
+      | succ k =>
+        have hne : M' ≠ [] := by intro e; subst e; simp at hlen
+        rw [nxt_append, nxt_of_ne hne, lastOr_of_ne hne]
+    rw [hp, hq]
+    show (live h (some lc.1) && live h (some rc.1) &&
+      reverseLoopOk k (swap h lc.1 rc.1) (nd h lc.1).next (nd h rc.1).prev) = true
+    rw [nd_of hlc, nd_of hrc, hcur]
+    have sw' : Seg (swap h lc.1 rc.1) none ((A ++ [rc]) ++ M' ++ (lc :: B)) none := by
+      have : (A ++ [rc]) ++ M' ++ (lc :: B) = A ++ rc :: (M' ++ lc :: B) := by simp
+      rw [this]; exact sw
+    have hnd' : (idsOf ((A ++ [rc]) ++ M' ++ (lc :: B))).Nodup := by
+      have hperm : (idsOf ((A ++ [rc]) ++ M' ++ (lc :: B))).Perm (idsOf (A ++ lc :: (M' ++ rc :: B))) := by
+        simp only [idsOf_append, idsOf_cons, idsOf_nil, List.append_assoc, List.singleton_append]
+        refine List.Perm.append_left _ ?_
+        have : (rc.1 :: (idsOf M' ++ lc.1 :: idsOf B)).Perm (rc.1 :: lc.1 :: (idsOf M' ++ idsOf B)) :=
+          List.Perm.cons _ (List.perm_middle)
+        refine this.trans ?_
+        refine (List.Perm.swap lc.1 rc.1 _).trans ?_
+        refine List.Perm.cons _ ?_
+        exact (List.perm_middle).symm
+      exact hperm.nodup_iff.2 hn'
+    rw [reverseLoopOk_spec k (swap h lc.1 rc.1) (A ++ [rc]) M' (lc :: B) sw' hnd' hlen]
+    simp only [live_some, hlc, hrc, Option.isSome_some, Bool.and_self]
+
+/-- **`cc_list_reverse` raises no fault** on a represented list (no NULL or released cursor is dereferenced) and is `reverse` -/
+theorem reverseC_spec (s : St) (l : Hdr) (cs : List Cell) (m : Mem) (r : Repr s.heap l cs) :
+    reverseC s l m = ((reverse s l).1, (reverse s l).2, m) := by
+  unfold reverseC
+  by_cases hsm : l.size = 0 ∨ l.size = 1
+  · simp [hsm]
+  · have hk : cs.length = 2 * (l.size / 2) ∨ cs.length = 2 * (l.size / 2) + 1 := by rw [r.size]; omega
+    have := reverseLoopOk_spec (l.size / 2) s.heap [] cs [] (by simpa using r.seg) (by simpa using r.nodup) hk
+    rw [← r.head, ← r.tail] at this
+    simp [this]
+
 end CC.PList
